@@ -2,3 +2,4 @@ pub mod cal;
 pub mod tl;
 pub mod fmt;
 pub mod cron;
+pub mod tz;
